@@ -621,9 +621,11 @@ func runC12(o *Out, rng *RNG, tier string, replay string) {
 		"on {plain context, root scope, root+child sharing a context, isolated context, root scope + child scope with an isolated context, " +
 		"plain context + its isolated context (operations on both)}, yield hook at the Stop gap; every caller checks IsDone/Done()/Errors()/Err() " +
 		"right after its own completed call; one waiter per Done() channel; termexec.RunCommand/RunLoop probe on ending scopes; " +
+		"termexec.RunLoop on inputs that fail at every byte position of the script (read error / end of input, failing command) with the " +
+		"loop's own signalling calls held back: the failure is in the scope when RunLoop returns, none is signalled later; " +
 		"non-trivial = at least two goroutines signal (append/kill/stop); distinct by the operation lists. " +
 		"L1: small concurrent runs replayed in completion order (CLin), the exhaustive child-of-done orders and random sequential " +
-		"histories on scope trees (CSeq) are evaluated on the model inside Coq."
+		"histories on scope trees (CSeq) and the caller's view of every swept RunLoop round (CSeq: the append the loop owes, wait, close) are evaluated on the model inside Coq."
 	thorough := tier == "thorough"
 	if replay != "" {
 		if r, ok := replayHistory(replay); ok {
@@ -898,6 +900,10 @@ func runC12(o *Out, rng *RNG, tier string, replay string) {
 		}
 		o.AddCase(fmt.Sprintf("CSeq %s %s %s", r.coqHist(), r.coqObs(), r.coqErrs()), r.desc(), "seq:"+r.key(), len(r.Hist) > 4)
 	}
+
+	// ---- (e) the failures termexec.RunLoop signals itself (input read error at every position, malformed
+	// last line, failing command) with its signalling calls held back: in the scope before the loop is over
+	c12LoopFailureProbe(o, rng, thorough)
 }
 
 // the same trial runner, but for the isolated kind the parent is left alone (final state = what the
